@@ -7,6 +7,7 @@ pub mod c04;
 pub mod inst;
 pub mod samples;
 pub mod c07;
+pub mod c08;
 pub mod c16;
 pub mod c17;
 pub mod c19;
@@ -46,6 +47,9 @@ pub fn dispatch(op: &str, input: &Tree) -> Result<Tree, String> {
         return r;
     }
     if let Some(r) = c04::dispatch(op, input) {
+        return r;
+    }
+    if let Some(r) = c08::dispatch(op, input) {
         return r;
     }
     Err(format!("unknown op {op}"))
